@@ -104,6 +104,102 @@ def build_header(rng, n_items):
     return "\n".join(lines) + "\n", items
 
 
+def pair_header():
+    """every ordered pair of binary operators (and each with the conditional operator) written WITHOUT parentheses, with operands for
+    which the two possible groupings have different values: one enumerator per pair decides the precedence/associativity table"""
+    ops = [o for o in exprgen.PREC if o not in ("comma", "tern")]
+    vals = [0, 1, 2, 3, 5, 7, 8, 12]
+    lines = ["enum Pairs {"]
+    items = []
+
+    def ev(e):
+        try:
+            return exprgen.cxx_eval(e)
+        except exprgen.Undefined:
+            return None
+    k = 0
+    for o1 in ops:
+        for o2 in ops:
+            p1, a1 = exprgen.PREC[o1]
+            p2, _ = exprgen.PREC[o2]
+            found = None
+            for a in vals:
+                for b in vals:
+                    for c in vals:
+                        left = ("bin", o2, ("bin", o1, ("int", a), ("int", b)), ("int", c))
+                        right = ("bin", o1, ("int", a), ("bin", o2, ("int", b), ("int", c)))
+                        vl, vr = ev(left), ev(right)
+                        if vl is not None and vr is not None and vl != vr:
+                            found = (left, vl) if (p1 > p2 or (p1 == p2 and a1 == "l")) else (right, vr)
+                            break
+                    if found:
+                        break
+                if found:
+                    break
+            if not found:
+                continue
+            name = "P%d_%s_%s" % (k, o1, o2)
+            lines.append("  %s = %s," % (name, exprgen.text(found[0])))
+            items.append(("enum", name, found[0], found[1]))
+            k += 1
+    for o in ops:
+        # `a o b ? c : d` groups as (a o b) ? c : d and `a ? b : c o d` as a ? b : (c o d)
+        for e in (("tern", ("bin", o, ("int", 2), ("int", 3)), ("int", 5), ("int", 7)), ("tern", ("int", 0), ("int", 5), ("bin", o, ("int", 7), ("int", 2))),
+                  ("tern", ("int", 1), ("int", 5), ("bin", o, ("int", 7), ("int", 2)))):
+            v = ev(e)
+            if v is None:
+                continue
+            name = "P%d_tern_%s" % (k, o)
+            lines.append("  %s = %s," % (name, exprgen.text(e)))
+            items.append(("enum", name, e, v))
+            k += 1
+    lines.append("};")
+    lines.append("struct Arrays {\n__published:\n  int unused_bound[1];\n};")
+    return "\n".join(lines) + "\n", items
+
+
+def redef_header(rng, n):
+    """macros defined through other macros, where the referenced macro changes and the dependent one is stated again (identically, after
+    #undef, or with another spelling): the recorded value is the one the compiler uses after the LAST definition.  Nothing a macro refers to
+    changes after that macro's last definition, so its value is the same at every later point of the translation unit."""
+    lines, items = [], []
+    for k in range(n):
+        a, b, c = "RA%d" % k, "RB%d" % k, "RC%d" % k
+        form = rng.choice(["identical", "identical", "undef-define", "other-spelling", "unchanged-identical"])
+        v1 = rng.randrange(0, 50)
+        v2 = v1 if form == "unchanged-identical" else rng.choice([x for x in range(50) if x != v1])
+        op, lit = rng.choice(["add", "mul", "sub", "shl", "bor", "bxor"]), rng.randrange(1, 9)
+        op2, lit2 = rng.choice(["add", "mul", "sub"]), rng.randrange(1, 9)
+        with_c = rng.random() < 0.5
+        eb = lambda v, l=lit: ("bin", op, ("ref", a, v), ("int", l))
+        ec = lambda vb: ("bin", op2, ("ref", b, vb), ("int", lit2))
+        lines += ["#define %s %d" % (a, v1), "#define %s (%s)" % (b, exprgen.text(eb(v1)))]
+        if with_c:
+            lines.append("#define %s (%s)" % (c, exprgen.text(ec(0))))
+        if form != "unchanged-identical":
+            lines += ["#undef %s" % a, "#define %s %d" % (a, v2)]
+        else:
+            lines.append("#define %s %d" % (a, v2))
+        fin = eb(v2)
+        if form == "undef-define":
+            lines.append("#undef %s" % b)
+        elif form == "other-spelling":
+            fin = eb(v2, lit + 1)
+        lines.append("#define %s (%s)" % (b, exprgen.text(fin)))
+        vb = exprgen.cxx_eval(fin)
+        items.append(("macro", a, ("int", v2), v2))
+        items.append(("macro", b, fin, vb))
+        if with_c:
+            lines.append("#define %s (%s)" % (c, exprgen.text(ec(vb))))
+            items.append(("macro", c, ec(vb), exprgen.cxx_eval(ec(vb))))
+        redef_header.forms[form] = redef_header.forms.get(form, 0) + 1
+    lines.append("struct Arrays {\n__published:\n  int unused_bound[1];\n};")
+    return "\n".join(lines) + "\n", items
+
+
+redef_header.forms = {}
+
+
 def run(ck):
     quick = ck.quick
     rng = ck.rng
@@ -126,8 +222,17 @@ def run(ck):
         n_hdr = 6 if quick else 150
         uneval = 0
         total = 0
-        for n in range(n_hdr):
-            text, items = build_header(rng, 30 if quick else 40)
+        for n in range(n_hdr + 2):
+            if n == n_hdr + 1:
+                text, items = redef_header(rng, 12 if quick else 200)
+                build_header.enums = {}
+                ck.extra["macro_redefinition_forms"] = dict(redef_header.forms)
+            elif n == n_hdr:
+                text, items = pair_header()
+                build_header.enums = {}
+                ck.extra["operator_pairs_unparenthesised"] = len(items)
+            else:
+                text, items = build_header(rng, 30 if quick else 40)
             hp = wd / ("c%d.h" % n)
             hp.write_text(text)
             od = wd / ("c%d.in" % n)
